@@ -230,7 +230,16 @@ func (core *JApiCore) addURL(d *directive.Directive) *jerr.JApiError {
 
 	core.uniqURLPath[p] = struct{}{}
 
-	return checkJsonRpcUrlChildCompatible(d)
+	if je := checkJsonRpcUrlChildCompatible(d); je != nil {
+		return je
+	}
+
+	for _, dd := range d.Children {
+		if dd.Type() == directive.Tags {
+			return core.catalog.CheckTagsDirective(dd)
+		}
+	}
+	return nil
 }
 
 // checkJsonRpcUrlChildCompatible checks the compatibility of child directives for HTTP and JSON-RPC protocols.
